@@ -124,8 +124,13 @@ func runC13(ci interface{}) Result {
 		return r
 	}
 	if tr.Hang != nil {
-		vstat.Class("hang-left-to-C01", 1)
 		dumpHang(sc, tr)
+		if strings.HasPrefix(tr.Hang.AtStep, "late call") && strings.Contains(tr.Hang.AtStep, " write ") {
+			// "A Write that begins after Wait has returned emits nothing and returns (0, ErrDone)"
+			r.Err, r.Kind = fmt.Errorf("a Write that began after Wait had returned does not return (%s): %v", tr.Hang.AtStep, tr.Hang.Where), "late-write-hangs"
+			return r
+		}
+		vstat.Class("hang-left-to-C01", 1)
 		return r
 	}
 	r.Classes = append(append(r.Classes, "refresh:"+sc.Cfg.Refresh), featureClasses(sc)...)
